@@ -268,9 +268,19 @@ def _run_plans(plans, prefix, views=False):
             if cls == 'reuse':
                 obj = msg
                 cls, msg_text, mo = objects[obj]
+                if mo is None:
+                    continue
                 reused = True
             else:
                 msg_text = TJ.to_text(msg)
+                kc = impl.classify_text(msg_text)
+                if 'err' in kc:
+                    # reported through the classification comparison of the merge family
+                    docs.append(msg_text)
+                    steps.append({'ro_before': state, 'msg_text': msg_text, 'cls': cls, 'k': k, 'classify_err': kc['err'],
+                                  'completed_before': bool(ro.completed), 'reused_object': False, 'via': 'add', 'obj': None})
+                    objects.append((cls, msg_text, None))
+                    continue
                 mo = impl.load(msg_text)
                 obj = len(objects)
                 objects.append((cls, msg_text, mo))
